@@ -17,7 +17,8 @@
    Code is referred to by an identifier into a program table (id 0 = no code).
    Numbers are unbounded N: uint64 wrap-around of gas/nonce is outside the model
    (gas < 2^64 at the top, as in the implementation).
-   Precompiled contracts (addresses 1..8) are never call targets. *)
+   Precompiled contracts are called with the empty input only (their outcome is then
+   decided by the gas: table p_pregas, read from the running code). *)
 From Coq Require Export List NArith Bool.
 Export ListNotations.
 Open Scope N_scope.
@@ -93,7 +94,10 @@ Record gastab := mkGas {
   p_memgas : N; p_quad : N;
   (* behaviour probed by the translator: does CreateAccount carry over the balance of an
      object that an earlier Finalise of the block has deleted? *)
-  p_resurrect : bool
+  p_resurrect : bool;
+  (* the active precompiled contracts: RequiredGas on the empty input, keyed by the model name of
+     the address (Base (1000000 + n) for address n); None = not a precompile *)
+  p_pregas : N -> option N
 }.
 
 (* one row of the jump table as dumped by the translator:
@@ -329,6 +333,19 @@ Definition run_code (runf : runner) (cx : ctx) (c : N) (gas : N) (s : state) : r
   | acts => runf cx acts 0 gas s
   end.
 
+(* run() for a call: a precompiled contract at the code address is a total function of the input
+   (here always the empty input: it succeeds if its required gas can be paid -
+   RunPrecompiledContract - and touches no state), anything else is interpreted *)
+Definition pre_gas (to : addr) : option N := match to with Base n => p_pregas G n | _ => None end.
+Definition run_target (runf : runner) (cx : ctx) (to : addr) (gas : N) (s : state) : res :=
+  match pre_gas to with
+  | Some need => match charge need gas with
+                 | Some g => mkRes Done g s 0 0
+                 | None => mkRes Failed gas s 0 0       (* ErrOutOfGas *)
+                 end
+  | None => run_code runf cx (get_code to s) gas s
+  end.
+
 (* the common tail of Call/CallCode/DelegateCall/StaticCall:
    if err != nil { RevertToSnapshot; if err != errExecutionReverted { UseGas(all) } } *)
 Definition finish (snap : nat) (r : res) : res :=
@@ -349,18 +366,18 @@ Definition call_frame (runf : runner) (k : kind) (cx : ctx) (to : addr) (gas val
       let snap := snapshot s in
       let s1 := if exist to s then s else create_account (p_resurrect G) to s in
       let s2 := transfer self to value s1 in
-      finish snap (run_code runf (mkCtx to self value (c_static cx) (c_depth cx + 1)) (get_code to s2) gas s2)
+      finish snap (run_target runf (mkCtx to self value (c_static cx) (c_depth cx + 1)) to gas s2)
   | KCallCode =>
     if negb (can_transfer self value s) then mkRes Failed gas s 0 0
     else
       let snap := snapshot s in
-      finish snap (run_code runf (mkCtx self self value (c_static cx) (c_depth cx + 1)) (get_code to s) gas s)
+      finish snap (run_target runf (mkCtx self self value (c_static cx) (c_depth cx + 1)) to gas s)
   | KDelegate =>
       let snap := snapshot s in
-      finish snap (run_code runf (mkCtx self (c_caller cx) (c_value cx) (c_static cx) (c_depth cx + 1)) (get_code to s) gas s)
+      finish snap (run_target runf (mkCtx self (c_caller cx) (c_value cx) (c_static cx) (c_depth cx + 1)) to gas s)
   | KStatic =>
       let snap := snapshot s in
-      finish snap (run_code runf (mkCtx to self 0 true (c_depth cx + 1)) (get_code to s) gas s)
+      finish snap (run_target runf (mkCtx to self 0 true (c_depth cx + 1)) to gas s)
   end.
 
 (* evm.create, called from the frame cx with the init code [init] for [address] *)
